@@ -30,6 +30,7 @@ pub struct Program {
     pub w_nested: u32,
     pub w_move: u32,
     pub w_pause: u32,
+    pub w_foreign: u32,
     pub depth: u32,
     pub tracked: bool,
     pub guest_pairs: bool,
@@ -110,7 +111,11 @@ impl Interp {
             });
             if let Some(o) = o {
                 gtr!("i{}: destroy {}", self.iid, o.name());
+                let h = o.flight().map(|f| f.handle);
                 o.destroy();
+                if let Some(h) = h {
+                    crate::foreign::check_no_registration(h, "operation destroyed with its task");
+                }
             }
         }
     }
@@ -164,7 +169,8 @@ enum A {
     WakeKept(usize),
     Fire(usize),
     Sleep(usize),
-    Nested,
+    /// 0: nested `block_on`; 1 / 2: nested foreign executor speaking the v1 / v2 task C ABI
+    Nested(u32),
     Move(usize, usize),
     Pause,
 }
@@ -306,7 +312,11 @@ impl Future for Interp {
                     }
                 }
                 if p.depth < 1 && p.w_nested > 0 {
-                    acts.push((A::Nested, p.w_nested));
+                    acts.push((A::Nested(0), p.w_nested));
+                    if p.w_foreign > 0 {
+                        acts.push((A::Nested(1), p.w_foreign));
+                        acts.push((A::Nested(2), p.w_foreign));
+                    }
                 }
                 if p.w_move > 0 {
                     for &i in &owned {
@@ -334,12 +344,24 @@ impl Future for Interp {
                 A::Obj(i, code) => {
                     let mut o = wwith(|w| w.slots[i].obj.take()).unwrap();
                     let mut env = Env { cx, noop: &noop, tid, iid: me.iid, finishing: me.finishing };
+                    let before = o.flight().map(|f| f.handle);
                     let after = o.act(code, &mut env);
                     match after {
-                        After::Keep => wwith(|w| w.slots[i].obj = Some(o)),
+                        After::Keep => {
+                            let now = o.flight().map(|f| f.handle);
+                            wwith(|w| w.slots[i].obj = Some(o));
+                            // the operation completed or was cancelled: its state is
+                            // free, nobody may still hold a registration for it (I-STALE)
+                            if let (Some(h), None) = (before, now) {
+                                crate::foreign::check_no_registration(h, "operation finished");
+                            }
+                        }
                         After::Become(v) => {
                             wwith(|w| w.slots[i].owner = usize::MAX);
                             drop(o);
+                            if let Some(h) = before {
+                                crate::foreign::check_no_registration(h, "operation dropped");
+                            }
                             me.add(v);
                         }
                     }
@@ -424,31 +446,51 @@ impl Future for Interp {
                     me.sleeping_on = Some(c);
                     // loop top stores the waker and returns Pending
                 }
-                A::Nested => {
+                A::Nested(fv) => {
                     let mut p = me.prog.clone();
                     p.depth += 1;
                     p.budget = 1 + pick(5) as u32;
                     p.w_cell = 0;
+                    if fv != 0 {
+                        // `spawn_local` is documented not to work under a foreign executor
+                        p.w_spawn = 0;
+                    }
                     let b = with(|h| {
-                        let t = h.new_task(cmhost::TKind::BlockOn);
+                        let t = h.new_task(if fv == 0 { cmhost::TKind::BlockOn } else { cmhost::TKind::Foreign });
                         h.enter(t);
                         t
                     });
                     let child = Interp::new(b, p, true);
                     let ciid = child.iid;
-                    // optionally hand some movable objects to the nested body
-                    for &i in &owned {
-                        let mv = wwith(|w| w.slots[i].obj.as_ref().map(|o| o.flight().is_some()).unwrap_or(false));
-                        if mv && movable(i) && pick(2) == 1 {
-                            fault("op_moved_between_tasks");
-                            transfer(i, ciid);
+                    // optionally hand some movable objects to the nested body. The v1
+                    // ABI cannot express "this operation left your task"
+                    // (`unregister_waker` documents that it assumes the same task), so
+                    // operations do not migrate into or out of a v1 executor.
+                    if fv != 1 {
+                        for &i in &owned {
+                            let mv = wwith(|w| w.slots[i].obj.as_ref().map(|o| o.flight().is_some()).unwrap_or(false));
+                            if mv && movable(i) && pick(2) == 1 {
+                                fault("op_moved_between_tasks");
+                                transfer(i, ciid);
+                            }
                         }
                     }
-                    gtr!("i{}: nested block_on(i{}) as task {b}", me.iid, ciid);
-                    fault("nested_block_on");
                     wwith(|w| { w.tasks.entry(b).or_default(); });
                     let parent = me.iid;
-                    wit_bindgen::block_on(NestedWrap { inner: child, give_back_to: parent });
+                    // (nor into a v1 executor from a nested body)
+                    let body = NestedWrap { inner: child, give_back_to: parent, allow_giveback: fv != 1 && !crate::foreign::task_is_v1(tid) };
+                    match fv {
+                        0 => {
+                            gtr!("i{}: nested block_on(i{}) as task {b}", me.iid, ciid);
+                            fault("nested_block_on");
+                            wit_bindgen::block_on(body);
+                        }
+                        v => {
+                            gtr!("i{}: nested foreign v{v} executor running i{} as task {b}", me.iid, ciid);
+                            fault(if v == 1 { "foreign_v1_executor" } else { "foreign_v2_executor" });
+                            crate::foreign::run_foreign(v, b, Box::pin(body));
+                        }
+                    }
                     with(|h| h.leave(b));
                     wwith(|w| {
                         let t = w.tasks.entry(b).or_default();
@@ -488,7 +530,10 @@ fn movable(i: usize) -> bool {
     let o = wwith(|w| w.slots[i].obj.take());
     match o {
         Some(o) => {
-            let m = o.movable();
+            // an operation registered with a v1 executor cannot leave it: the v1 ABI
+            // has no way to unregister from a task that is not the current one
+            let stuck_in_v1 = o.flight().and_then(|f| f.reg).map(crate::foreign::task_is_v1).unwrap_or(false);
+            let m = o.movable() && !stuck_in_v1;
             wwith(|w| w.slots[i].obj = Some(o));
             m
         }
@@ -631,13 +676,14 @@ impl Drop for ChildWrap {
 pub struct NestedWrap {
     pub inner: Interp,
     pub give_back_to: usize,
+    pub allow_giveback: bool,
 }
 impl Future for NestedWrap {
     type Output = ();
     fn poll(self: Pin<&mut Self>, cx: &mut Context<'_>) -> Poll<()> {
         let me = unsafe { self.get_unchecked_mut() };
         // hand back before the body gets a chance to destroy them
-        if (me.inner.finishing || me.inner.budget == 0 || with(|h| h.drain)) && pick(2) == 1 {
+        if me.allow_giveback && (me.inner.finishing || me.inner.budget == 0 || with(|h| h.drain)) && pick(2) == 1 {
             let iid = me.inner.iid;
             let owned: Vec<usize> = wwith(|w| w.slots.iter().enumerate().filter(|(_, s)| s.owner == iid && s.obj.is_some()).map(|(i, _)| i).collect());
             for i in owned {
